@@ -491,6 +491,66 @@ def product_probes():
 product_probes()          # fills REF_OVERRIDE (needed by --replay as well)
 
 
+# ---- sources of undefined: the matrix speaks about undefined values whatever produced them -------------
+# Every undefined the ENGINE produces (not the silent one of a conditional expression without else) must behave at
+# every site exactly like a missing variable: same success / failure, same error kind, same output, in each mode.
+# (id, wrapper | None, expression)   wrapper: template (or {name: source} set) with <<BODY>> where the site goes
+_LOOP1 = "{% for q in ['a'] %}<<BODY>>{% endfor %}"
+_LOOP3 = "{% for q in ['a', 'b', 'c'] %}{% if loop.WHICH %}<<BODY>>{% endif %}{% endfor %}"
+UNDEF_SOURCES = [
+    ("missing-attr", None, "d.zz"), ("missing-attr-literal", None, "{}.x"), ("missing-key", None, "{'k': 1}['zz']"), ("missing-key-var", None, "d['zz']"),
+    ("attr-of-int", None, "n.foo"), ("attr-of-string", None, "s.foo"), ("attr-of-list", None, "x.foo"), ("attr-of-none", None, "nn.foo"),
+    ("index-out-of-range", None, "x[99]"), ("negative-index-out-of-range", None, "x[-99]"), ("string-index-out-of-range", None, "'abc'[9]"),
+    ("tuple-index-out-of-range", None, "(1, 2)[5]"), ("index-of-empty-literal", None, "[][0]"),
+    ("first-of-empty", None, "[]|first"), ("last-of-empty", None, "[]|last"), ("min-of-empty", None, "[]|min"), ("max-of-empty", None, "[]|max"),
+    ("first-of-empty-string", None, "''|first"), ("last-of-empty-string", None, "''|last"), ("first-of-empty-slice", None, "x[5:]|first"), ("last-of-empty-slice", None, "x[5:]|last"),
+    ("first-of-empty-lazy", None, "x|select('>', 5)|first"), ("last-of-empty-lazy", None, "x|select('>', 5)|last"), ("last-of-empty-range", None, "range(0)|last"),
+    ("loop-previtem-first", _LOOP1, "loop.previtem"), ("loop-nextitem-last", _LOOP1, "loop.nextitem"),
+    ("loop-previtem-first-of-3", _LOOP3.replace("WHICH", "first"), "loop.previtem"), ("loop-nextitem-last-of-3", _LOOP3.replace("WHICH", "last"), "loop.nextitem"),
+    ("loop-missing-attr", _LOOP1, "loop.nope"),
+    ("unpassed-macro-arg", "{% macro mm(a) %}<<BODY>>{% endmacro %}{{ mm() }}", "a"),
+    ("unpassed-macro-arg-2", "{% macro mm(a, b) %}<<BODY>>{% endmacro %}{{ mm(1) }}", "b"),
+    ("caller-outside-call-block", "{% macro mm() %}<<BODY>>{% endmacro %}{{ mm() }}", "caller"),
+    ("namespace-missing-attr", None, "namespace().x"), ("namespace-missing-attr-2", None, "namespace(a=1).b"), ("dict-missing-attr", None, "dict(a=1).zz"),
+    ("module-missing-macro", {"main": '{% import "mod" as md %}<<BODY>>', "mod": "{% macro hello() %}hello{% endmacro %}"}, "md.nope"),
+    ("attr-filter-missing", None, "{}|attr('x')"), ("attr-filter-missing-var", None, "d|attr('zz')"),
+    ("map-attribute-missing", None, "recs|map(attribute='zz')|first"), ("map-attribute-missing-list", None, "(recs|map(attribute='zz')|list)[1]"),
+    ("groupby-missing-key", None, "(recs|groupby('zz')|first)[0]"),
+    ("set-copy", "{% set z = u %}<<BODY>>", "z"), ("with-copy", "{% with z = x[99] %}<<BODY>>{% endwith %}", "z"),
+    ("loop-var-undefined-item", "{% for z in [u] %}<<BODY>>{% endfor %}", "z"), ("unpacked-undefined-item", "{% for y, z in [[1, u]] %}<<BODY>>{% endfor %}", "z"),
+    ("default-of-undefined", None, "u|default(d.zz)"), ("ifexpr-branch", None, "(u if true else 1)"), ("or-result", None, "(false or x[99])"), ("and-result", None, "(true and d.zz)"),
+    ("list-item", None, "[u][0]"), ("map-value", None, "{'k': u}.k"), ("macro-return-arg", "{% macro idm(a) %}{{ a }}{% endmacro %}<<BODY>>", "[]|last"),
+]
+SOURCE_SITES = [  # (id, template; `@` = the (parenthesised) source expression)
+    ("print", "{{ @ }}"), ("print-escaped", "{% autoescape true %}{{ @ }}{% endautoescape %}"), ("print-in-set-block", "{% set zz %}{{ @ }}{% endset %}[{{ zz }}]"),
+    ("if", "{% if @ %}a{% else %}b{% endif %}"), ("not", "{{ not @ }}"), ("ifexpr-cond", "{{ 1 if @ else 2 }}"), ("and-left-tolerant", "{{ (@ and 1) is defined }}"),
+    ("or-left", "{{ @ or 'o' }}"), ("bool-filter", "{{ @|bool }}"), ("loop-filter", "{% for i in [1] if @ %}a{% else %}e{% endfor %}"),
+    ("for", "{% for i in @ %}x{% else %}e{% endfor %}"), ("list-filter", "{{ @|list }}"), ("sum-filter", "{{ @|sum }}"), ("in-container", "{{ 1 in @ }}"), ("join-filter", "{{ @|join(',') }}"),
+    ("attr", "{{ @.a }}"), ("item", "{{ @[0] }}"), ("attr-then-default", "{{ @.a|default('D') }}"), ("slice", "{{ @[1:] }}"),
+    ("upper", "{{ @|upper }}"), ("title", "{{ @|title }}"), ("string", "{{ @|string }}"), ("concat", "{{ @ ~ 'z' }}"), ("concat-right", "{{ 'z' ~ @ }}"), ("int", "{{ @|int }}"),
+    ("startingwith", "{{ @ is startingwith('a') }}"), ("replace-arg", "{{ 'aba'|replace(@, 'c') }}"), ("escape", "{{ @|escape }}"),
+    ("add", "{{ @ + 1 }}"), ("neg", "{{ -@ }}"), ("lt", "{{ @ < 1 }}"), ("eq", "{{ @ == 1 }}"), ("in-item", "{{ @ in x }}"),
+    ("is-defined", "{{ @ is defined }}"), ("is-undefined", "{{ @ is undefined }}"), ("default", "{{ @|default('D') }}"), ("is-none", "{{ @ is none }}"), ("tojson", "{{ @|tojson }}"),
+    ("macro-arg-print", "{% macro pp(a) %}{{ a }}{% endmacro %}{{ pp(@) }}"), ("list-item-print", "{% for i in [@] %}{{ i }}{% endfor %}"),
+]
+
+
+def source_probes():
+    """[(site id, wrapper, template of the source, template of the missing variable)]"""
+    out = []
+    for srcid, wrap, expr in UNDEF_SOURCES:
+        for sid, st in SOURCE_SITES:
+            def build(e):
+                t = st.replace("@", e)
+                if wrap is None:
+                    return t
+                if isinstance(wrap, dict):
+                    return {k: v.replace("<<BODY>>", t) for k, v in wrap.items()}
+                return wrap.replace("<<BODY>>", t)
+            out.append(("src:%s:%s" % (srcid, sid), build("(" + expr + ")"), build("u")))
+    return out
+
+
 def matrix_probes():
     """[(site id, class, template with @, operand)]"""
     out = list(CORE)
